@@ -2,6 +2,7 @@ import Liquid.Scan
 import Liquid.Value
 import Liquid.Parse
 import Liquid.TrimWriter
+import Liquid.ExprParse
 /-!
 # Line-protocol driver (DESIGN §5.1): one case per line in, one canonical result line out.
 -/
@@ -12,6 +13,28 @@ def parseDelims (f : String) : List Bytes :=
 def showTokens (ts : List Token) : String :=
   if ts.isEmpty then "-" else " ".intercalate (ts.map Token.show)
 
+def flagS (b : Bool) (c : String) : String := if b then c else "-"
+
+def showStmt (kind : String) (r : Res ParseErr Stmt) : String :=
+  match r with
+  | .err _ => "err"
+  | .panic _ => "panic"
+  | .unmodelled w => "unmodelled " ++ w
+  | .ok st =>
+    match kind, st with
+    | "e", .expr _ => "ok"
+    | "assign", .assign x _ => "ok " ++ hexField x
+    | "cycle", .cycle g vs => "ok " ++ hexField g ++ " " ++ ",".intercalate (vs.map fun v => "s" ++ hexEncode v)
+    | "loop", .loop x _ m => "ok " ++ hexField x ++ " " ++ flagS m.reversed "r" ++ flagS m.limit.isSome "l" ++
+        flagS m.offset.isSome "o" ++ flagS m.cols.isSome "c"
+    | "when", .when es => s!"ok {es.length}"
+    | "e", _ => "err"
+    | _, _ => "err-nostmt"
+
+def selectorOf (kind : String) : Bytes :=
+  match kind with
+  | "assign" => kwAssign | "cycle" => kwCycle | "loop" => kwLoop | "when" => kwWhen | _ => []
+
 def runCase (line : String) : String :=
   match line.splitOn " " with
   | ["scan", d, ln, src] =>
@@ -19,6 +42,8 @@ def runCase (line : String) : String :=
   | ["tw", ops] =>
     let os := if ops == "-" then [] else (ops.splitOn ",").filterMap WOp.parse
     showCalls (writeCalls os)
+  | ["eparse", kind, src] =>
+    showStmt kind (parseSource (selectorOf kind ++ hexDecode src))
   | ["val", v] =>
     match GoVal.parse v with
     | some x => x.enc
